@@ -165,3 +165,26 @@ Proof.
     try (apply bytes_eqb_eq in Es; exists u; split; [reflexivity|exact Es]);
     try (apply bytes_eqb_neq in Es; split; [reflexivity|]; exists u; split; [reflexivity|exact Es]).
 Qed.
+
+(* the two public entry points of every flow agree: a client whose endpoint is conditionally set
+   AND present builds exactly the request / authorization URL of a client that has the same
+   endpoint set unconditionally and is otherwise configured the same (id, secret, auth type,
+   redirect): in particular the client's default redirect is carried by both *)
+Lemma authorize_maybe_present_as_set s s' st :
+  tstate EAuth s = MaybeSet -> tstate EAuth s' = IsSet -> field EAuth s = field EAuth s' ->
+  field EAuth s <> None -> c_id s = c_id s' -> c_redirect s = c_redirect s' ->
+  run_authorize s st = run_authorize s' st.
+Proof.
+  intros Ht Ht' Hf Hn Hid Hred. unfold run_authorize.
+  rewrite (maybe_present_as_set s s' EAuth Ht Ht' Hf Hn), Hid, Hred. reflexivity.
+Qed.
+
+Lemma operation_maybe_present_as_set s s' o :
+  tstate (op_endpoint o) s = MaybeSet -> tstate (op_endpoint o) s' = IsSet ->
+  field (op_endpoint o) s = field (op_endpoint o) s' -> field (op_endpoint o) s <> None ->
+  creds_of s = creds_of s' -> op_kind s o = op_kind s' o ->
+  run_operation s o = run_operation s' o.
+Proof.
+  intros Ht Ht' Hf Hn Hc Hk. unfold run_operation.
+  rewrite (maybe_present_as_set s s' (op_endpoint o) Ht Ht' Hf Hn), Hc, Hk. reflexivity.
+Qed.
